@@ -543,6 +543,11 @@ func runC19(res *hx.Result, rng *hx.Rng, tier string, outdir string) {
 	// probe: the witness of C19_refuted_runlock_after_lock — two goroutines, one endpoint, both miss
 	probe := c19Scenario{Eps: []int{0, 0}, Hook: []bool{true, false}, NEnd: 1}
 	po := c19RunChild(probe, outdir, 999)
+	for try := 0; po.class == "error" && try < 2; try++ {
+		// the set-up of the child failed (not the requests under test): once more
+		res.Notes = append(res.Notes, "probe: set-up failed, run again: "+c19Tail(po.stderr, 200))
+		po = c19RunChild(probe, outdir, 999)
+	}
 	defect := false
 	switch po.class {
 	case "fatal":
